@@ -22,9 +22,17 @@ type Desc struct {
 	MaxDepth int
 	// Opaque, when set, stops at a value and returns a replacement string.
 	Opaque func(v ssa.Value) (string, bool)
+	// Inline > 0 describes calls of module functions by what they return (parameters replaced by the
+	// arguments' descriptions) when every return describes to the same expression: extracting an expression
+	// into a helper, or inlining one, does not change the description.
+	Inline int
+	subst  map[*ssa.Parameter]string
 }
 
 func D() *Desc { return &Desc{MaxDepth: 14} }
+
+// DI is D with helper inlining (two levels).
+func DI() *Desc { return &Desc{MaxDepth: 16, Inline: 2} }
 
 func (d *Desc) Of(v ssa.Value) string { return d.of(v, 0, map[ssa.Value]bool{}) }
 
@@ -60,6 +68,9 @@ func (d *Desc) of(v ssa.Value, depth int, seen map[ssa.Value]bool) string {
 	case *ssa.Const:
 		return constStr(x)
 	case *ssa.Parameter:
+		if s, ok := d.subst[x]; ok {
+			return s
+		}
 		return "$" + x.Name()
 	case *ssa.FreeVar:
 		if b := FreeVarBinding(x); b != nil {
@@ -115,6 +126,11 @@ func (d *Desc) of(v ssa.Value, depth int, seen map[ssa.Value]bool) string {
 	case *ssa.Call:
 		return d.call(x, depth, seen)
 	case *ssa.Extract:
+		if call, ok := x.Tuple.(*ssa.Call); ok {
+			if s, ok := d.inlineCall(call, x.Index, depth, seen); ok {
+				return s
+			}
+		}
 		return rec(x.Tuple) + "#" + fmt.Sprint(x.Index)
 	case *ssa.Convert:
 		return rec(x.X)
@@ -161,9 +177,54 @@ func (d *Desc) of(v ssa.Value, depth int, seen map[ssa.Value]bool) string {
 	return fmt.Sprintf("?%T", v)
 }
 
+// inlineCall describes result idx of a call by the callee's return expressions.
+func (d *Desc) inlineCall(x *ssa.Call, idx int, depth int, seen map[ssa.Value]bool) (string, bool) {
+	if d.Inline <= 0 {
+		return "", false
+	}
+	f := Callee(x)
+	if f == nil || f.Blocks == nil || !core.InModule(f) || len(f.Blocks) > 12 {
+		return "", false
+	}
+	rets := Returns(f)
+	if len(rets) == 0 || len(rets) > 4 || idx >= len(rets[0].Results) {
+		return "", false
+	}
+	sub := map[*ssa.Parameter]string{}
+	for k, v := range d.subst {
+		sub[k] = v
+	}
+	for i, p := range f.Params {
+		if i < len(x.Call.Args) {
+			sub[p] = d.of(x.Call.Args[i], depth+1, seen)
+		}
+	}
+	inner := &Desc{MaxDepth: d.MaxDepth, Opaque: d.Opaque, Inline: d.Inline - 1, subst: sub}
+	set := map[string]bool{}
+	for _, r := range rets {
+		set[inner.of(r.Results[idx], depth+1, map[ssa.Value]bool{})] = true
+	}
+	var l []string
+	for s := range set {
+		l = append(l, s)
+	}
+	sort.Strings(l)
+	if len(l) == 1 {
+		return l[0], true
+	}
+	return "phi(" + strings.Join(l, " | ") + ")", true
+}
+
 func (d *Desc) call(x *ssa.Call, depth int, seen map[ssa.Value]bool) string {
 	rec := func(v ssa.Value) string { return d.of(v, depth+1, seen) }
 	cc := x.Common()
+	if x.Type() != nil {
+		if _, isTuple := x.Type().(*types.Tuple); !isTuple {
+			if s, ok := d.inlineCall(x, 0, depth, seen); ok {
+				return s
+			}
+		}
+	}
 	var args []string
 	for _, a := range cc.Args {
 		args = append(args, rec(a))
